@@ -40,6 +40,7 @@ def FieldOk (st : Style) (env : PEnv) : FK → FV → Prop
   | .hexOne, .b s => (∀ x ∈ s, x < 256) ∧ s ≠ [] ∧ s.length ≤ 255
   | .b64One, .b s => (∀ x ∈ s, x < 256) ∧ s ≠ []
   | .rcode, .n v => v ≤ 4095
+  | .gpos lim, .b s => s.length ≤ 255 ∧ gposCheck lim s = true
   | .nameRaw, .nm n => WfName n ∧ OctetsOk n ∧ chooseRelativity n st.origin st.relativize = .ok n
   | _, _ => False
 
@@ -92,6 +93,7 @@ theorem field_rt (st : Style) (env : PEnv) (k : FK) (v : FV) (h : FieldOk st env
   case hexOne.b s => exact ⟨_, _, field_hexOne st env s h.1 h.2.1 h.2.2⟩
   case b64One.b s => exact ⟨_, _, field_b64One st env s h.1 h.2⟩
   case rcode.n v => obtain ⟨t, ht⟩ := field_rcode st env v h; exact ⟨_, _, ht⟩
+  case gpos.b lim s => exact ⟨_, _, field_gpos st env lim s h.1 h.2⟩
   case nameRaw.nm n => exact ⟨_, _, field_nameRaw st env n h.1 h.2.1 h.2.2⟩
   case b32hex.b s => exact ⟨_, _, field_b32hex st env s h.1 h.2.1 h.2.2 (b32_roundtrip s h.1)⟩
 
